@@ -1013,6 +1013,11 @@ func (in *Interp) cast(v Value, from, to *gen.Type) Value {
 		if s, ok := v.(string); ok {
 			return s
 		}
+		if f, ok := v.(float64); ok && (math.IsInf(f, 0) || math.IsNaN(f)) {
+			// output statements print "Unendlich" / "Keine Zahl (NaN)", the conversion uses C's rendering
+			// ("inf", "nan"); nothing states which one a conversion to Text has to produce
+			panic(&Unspecified{"non-finite Kommazahl -> Text"})
+		}
 		return Format(v)
 	case gen.KList:
 		if l, ok := v.(*List); ok {
